@@ -284,12 +284,13 @@ def run(prop, tier, seed, replay=None):
                traces_validated_against_impl=acc + len(rej) + len(reps), traces_accepted=acc, traces_rejected=len(rej) + confirmed,
                slowest_call_us=max([r.get("max_us", 0) for r in results] or [0]),
                models=models, states=sum(m.get("states", 0) for m in models), transitions=sum(m.get("transitions", 0) for m in models),
-               exhaustive=False, harness_errors=len(errors), phase_wall_s=phases, deadline_misses_not_confirmed=slow)
+               exhaustive=False, harness_errors=len(errors), phase_wall_s=phases, deadline_misses_not_confirmed=slow,
+               calls_replied_after_deadline_within_grace=sum(r.get("slow_calls", 0) for r in results))
     vlib.write_evidence(prop, tier, seed, "exploration", cov, time.time() - t0, len(rep.violations),
                         ["the universal quantifier over all byte strings is SAMPLED through the enumerated structure-aware mutation classes "
                          "(type confusion, missing/null member, extreme numbers, truncation, duplicate member, empty, deep nesting, "
                          "hand-written unusual combinations, seeded random stacks); no claim outside those classes",
-                         "termination is a 5 s per-call deadline, not a proof",
+                         "termination is a per-call deadline (5 s, plus a 10 s grace period on a busy machine; a reported hang is re-run alone), not a proof",
                          "a panic in a goroutine spawned by the code under test would kill the driver (reported as inconclusive, exit 2)",
                          "resource exhaustion (memory) is not an oracle: a decompression bomb that terminates within the deadline counts as handled",
                          "reject => unchanged is checked on a state digest where a store exists: DAG content modulo well-formed transactions "
